@@ -55,7 +55,7 @@ class StubPipeline:
 
 def _events():
     evs = []
-    for kind in ("bg", "stopped", "fg"):
+    for kind in ("bg", "stopped", "fg", "suspended"):  # "suspended": what _run_command_pipeline records for a pipeline that got suspended
         evs.append(["start", kind])
     for j in range(1, MAXJOBS + 1):
         evs.append(["exit", j])
@@ -192,7 +192,7 @@ class Harness:
             self.next_pid += 1
             p = StubProc(pid)
             self.procs[pid] = p
-            status = "stopped" if ev[1] == "stopped" else "running"
+            status = ev[1] if ev[1] in ("stopped", "suspended") else "running"
             info = {"cmds": [["sleep", str(pid)]], "pids": [pid], "status": status, "obj": p, "bg": ev[1] == "bg", "pipeline": StubPipeline(self.log), "pgrp": None}
             with contextlib.redirect_stdout(io.StringIO()):
                 J.add_job(info)
